@@ -526,9 +526,9 @@ static int main_(int argc, char ** argv)
     for (long i = 0; i < n; ++i) {
       const int st = static_cast<int>(i % kNumElemStrata);
       auto cv = gen.element(c.rng, st, static_cast<int>(i / kNumElemStrata) % 3);
-      auto av = gen.tangent_c03(c.rng, static_cast<int>(i % 5));
-      auto bv = gen.tangent_c03(c.rng, static_cast<int>((i / 5) % 5));
-      auto dv = gen.tangent_c03(c.rng, c.rng.idx(5));
+      auto av = gen.tangent_c03(c.rng, static_cast<int>(i % 6));
+      auto bv = gen.tangent_c03(c.rng, static_cast<int>((i / 6) % 6));
+      auto dv = gen.tangent_c03(c.rng, c.rng.idx(6));
       c03_case(c, cv, av, bv, dv);
       if (i % 3 == 0) {
         auto c2 = gen.element(c.rng, c.rng.idx(kNumElemStrata), c.rng.idx(2));
